@@ -154,18 +154,61 @@ def writeTableM (cmp : Codec) (base : Nat) (data : Bytes) : Table :=
 
 /-! ### `SQFS_META_WRITER_KEEP_IN_MEMORY` + `sqfs_meta_write_write_to_file`
 
-The directory table is written through a meta writer created with `KEEP_IN_MEMORY` (init.c): `flush` then links
-the finished block into `m->list` instead of calling `write_block` (meta_writer.c:134-144); everything else
-(`block_offset`, the chunking, the compressor call) is the same state machine, so `St.out` stands for `m->list`.
-`sqfs_meta_write_write_to_file` (meta_writer.c:197-215) writes the list to the file in order and empties it. -/
+The directory table is written through a meta writer created with `KEEP_IN_MEMORY` (init.c).  `FSt` is the writer **with
+its flag word and both sinks**: `sqfs_meta_writer_flush` tests the flag and either links the finished block into
+`m->list` or hands it to `write_block` (meta_writer.c:134-144) — two branches of one function, written out here as in
+the C code, not derived from `St`.  `sqfs_meta_write_write_to_file` (meta_writer.c:197-215) writes the list to the file
+in order and empties it.  That the two branches yield the same blocks, offsets and positions as the flag-less machine
+`St` above is a theorem (`Sqfs.C03.keep_in_memory_same_blocks`), not a definition. -/
 
-structure Keep where
-  st : St := {}
-  file : List Block := []     -- what `write_block` has put into the file so far
+/-- `sqfs_meta_writer_t` with `flags`, the in-memory list and the file -/
+structure FSt where
+  flags : Nat := 0             -- m->flags
+  cur : Bytes := []            -- m->data[0 .. m->offset)
+  blockOffset : Nat := 0       -- m->block_offset
+  list : List Block := []      -- m->list … m->list_end, oldest first
+  file : List Block := []      -- what `write_block` has appended to the file so far
   deriving Repr
 
-def Keep.append (cmp : Codec) (k : Keep) (d : Bytes) : Keep := { k with st := MetaWriter.append cmp k.st d }
-def Keep.flush (cmp : Codec) (k : Keep) : Keep := { k with st := MetaWriter.flush cmp k.st }
-def Keep.writeToFile (k : Keep) : Keep := { st := { k.st with out := [] }, file := k.file ++ k.st.out }
+/-- `sqfs_meta_writer_flush` (meta_writer.c:100-150) with the `KEEP_IN_MEMORY` branch -/
+def FSt.flush (cmp : Codec) (w : FSt) : FSt :=
+  if w.cur = [] then w                                                          -- :107
+  else
+    let outblk : Block :=
+      match cmp w.cur with
+      | some c => if c.length > 0 then ⟨true, c, w.cur⟩ else ⟨false, w.cur, w.cur⟩    -- :121-128
+      | none => ⟨false, w.cur, w.cur⟩
+    let count := outblk.stored.length + 2
+    if hasFlag w.flags metaWriterKeepInMemory then                              -- :134
+      { w with cur := [], blockOffset := w.blockOffset + count, list := w.list ++ [outblk] }
+    else                                                                        -- :141 write_block
+      { w with cur := [], blockOffset := w.blockOffset + count, file := w.file ++ [outblk] }
+
+/-- the loop of `sqfs_meta_writer_append` on the flagged writer -/
+def FSt.appendGo (cmp : Codec) : Nat → FSt → Bytes → FSt
+  | 0, w, _ => w
+  | f + 1, w, data =>
+    if data = [] then w
+    else
+      let w := if w.cur.length = metaBlockSize then w.flush cmp else w
+      let diff := min (metaBlockSize - w.cur.length) data.length
+      FSt.appendGo cmp f { w with cur := w.cur ++ data.take diff } (data.drop diff)
+
+/-- `sqfs_meta_writer_append` on the flagged writer -/
+def FSt.append (cmp : Codec) (w : FSt) (data : Bytes) : FSt :=
+  let w := FSt.appendGo cmp (data.length + 1) w data
+  if w.cur.length = metaBlockSize then w.flush cmp else w
+
+/-- `sqfs_meta_writer_get_position` -/
+def FSt.position (w : FSt) : Nat × Nat := (w.blockOffset, w.cur.length)
+
+/-- `sqfs_meta_write_write_to_file`: every listed block goes through `write_block`, in list order; the list is emptied -/
+def FSt.writeToFile (w : FSt) : FSt := { w with list := [], file := w.file ++ w.list }
+
+/-- a flagged writer that continues from a state of the flag-less machine (what has been flushed so far sits in the
+sink the flag selects) -/
+def FSt.ofSt (flags : Nat) (st : St) : FSt :=
+  if hasFlag flags metaWriterKeepInMemory then { flags := flags, cur := st.cur, blockOffset := st.blockOffset, list := st.out }
+  else { flags := flags, cur := st.cur, blockOffset := st.blockOffset, file := st.out }
 
 end Sqfs.MetaWriter
